@@ -33,7 +33,7 @@ BUILD = VERIF / "build"
 EXTRACT = BUILD / "extract"
 TMP = BUILD / "tmp"
 REPLAY = BUILD / "replay"
-EVIDENCE = VERIF / "evidence"
+EVIDENCE = Path(os.environ.get("VERIF_EVIDENCE_DIR") or (VERIF / "evidence"))  # seeded runs redirect it
 MRUN = EXTRACT / "mrun"
 NPROC = min(16, os.cpu_count() or 4)
 
@@ -240,7 +240,7 @@ _SAFE = set("abcdefghijklmnopqrstuvwxyzABCDEFGHIJKLMNOPQRSTUVWXYZ0123456789_.:/-
 
 def _atom(s: str) -> str:
     if s == "":
-        return "\\e"
+        return "\\E"
     return "".join(c if c in _SAFE else "\\%02x" % ord(c) for c in s)
 
 
@@ -293,7 +293,7 @@ def sx_loads(s: str) -> Any:
         buf = []
         while pos < n and s[pos] not in " \t()":
             if s[pos] == "\\":
-                if s[pos + 1] == "e":
+                if s[pos + 1] == "E":   # empty atom (upper case: cannot clash with \\e0..\\ef)
                     pos += 2
                 else:
                     buf.append(chr(int(s[pos + 1:pos + 3], 16)))
